@@ -64,6 +64,7 @@ type c15e3Variant struct {
 	Close      bool // the connection closes its streams map ...
 	CloseAfter int  // ... after this many events
 	Acceptor   bool
+	Acceptor2  bool // a second goroutine blocked in AcceptStream at the same time
 	Uni        bool
 }
 
@@ -76,6 +77,8 @@ var c15e3Variants = func() []c15e3Variant {
 		{Name: "2callers-cancel-close", Callers: 2, Events: []string{"cancel", "max1"}, Close: true},
 		{Name: "acceptor-incoming-close", Callers: 1, Events: []string{"incoming", "max1", "incoming"}, Close: true, Acceptor: true},
 		{Name: "uni-3callers-2credits-cancel", Callers: 3, Events: []string{"max1", "cancel", "max2"}, Uni: true},
+		{Name: "2acceptors-2incoming", Callers: 0, Events: []string{"incoming", "incoming"}, Acceptor: true, Acceptor2: true},
+		{Name: "2acceptors-incoming-close", Callers: 0, Events: []string{"incoming"}, Close: true, Acceptor: true, Acceptor2: true},
 	}
 	var out []c15e3Variant
 	for _, v := range base {
@@ -188,6 +191,15 @@ func c15e3Scenario(v c15e3Variant) func() *sched.Scenario {
 				w.acceptEr = err
 			}}})
 		}
+		if v.Acceptor2 {
+			threads = append(threads, sched.Thread{Name: "acc2", Steps: []func(){func() {
+				s, err := w.m.AcceptStream(context.Background())
+				if err == nil {
+					w.accepted = append(w.accepted, s.StreamID())
+				}
+				w.acceptEr = err
+			}}})
+		}
 		check := func(final bool, blocked []string) *explore.Fail {
 			// ids handed out so far: strictly increasing in call order, right type, within the limit
 			var got []*c15e3Caller
@@ -256,7 +268,7 @@ func c15e3Scenario(v c15e3Variant) func() *sched.Scenario {
 				if w.closed {
 					return explore.Failf("e3:blocked-after-close", "%s: thread %s is still blocked after CloseWithError", v.Name, b)
 				}
-				if b == "acc" {
+				if b == "acc" || b == "acc2" {
 					if len(w.accepted) < w.incoming {
 						return explore.Failf("e3:lost-wakeup-accept", "%s: AcceptStream is blocked although %d of %d incoming streams are unaccepted", v.Name, w.incoming-len(w.accepted), w.incoming)
 					}
